@@ -9,6 +9,11 @@ CLAIMED = {
    note="float64 as exact reals; 1-2 sample points; index assignments enumerated; np.isnan False; identities on the domain where the denominators met are non-zero. Known findings (clamp regions) listed in known_findings.json.",
    technique="symbolic execution of the repository's Python through an exact-real numpy shim + automatic differentiation of the value term + z3 (QF_NRA) per path; finite-difference replay of every model",
    design="4/C12"),
+ "C14": dict(
+   text="For every class of the feature-map registry (read from the loaded module), FeatureList, SplineSetEvaluator and the to_dict of MappedDFTKernel(2): the real as_dict/from_dict code is executed with symbolic parameters and z3 shows the reloaded object yields the identical value/derivative terms (two save/load cycles); CrossHair decides, over symbolic strings, that from_dict accepts exactly the codes as_dict writes and that load_cider_model dispatches only yaml/joblib and rejects non-models; one concrete YAML/joblib file round trip per class validates the file layer bit-for-bit.",
+   note="dict level is symbolic; the file layer (PyYAML/joblib float round trip) is checked on one concrete sample per class; HDF5 ElectronAnalyzer dumps and NNEvaluator are outside; CrossHair string lengths <= 8, per-condition timeout 30 s (quick) / 120 s (thorough), 'Not confirmed' counted inconclusive.",
+   technique="symbolic execution (exact reals) of serialisers + z3 term equality; CrossHair/z3 on the dispatch code with symbolic strings; concrete file round trip as translation validation",
+   design="4/C14"),
 }
 
 NOT_YET = {}
